@@ -51,6 +51,15 @@ CHECKS = {
         note="In-place targets keeping their flag is checked under C04/C05. Known findings: constant copy keeps grad (pinned by a test), clip without bounds ignores constant=. Trusted: Coq kernel, harness. No axioms.",
         technique="Coq proofs (finite case analysis + invariant over histories) + exhaustive lattice correspondence by vm_compute + differential oracle",
     ),
+    "C14": dict(
+        text="Machine-checked proofs (Coq): on the history model, for every state satisfying the invariant (hence every reachable state), L.backward() and L.sum().backward() have the same outcome and leave the same gradient "
+             "in every earlier tensor, likewise L.backward(g) and (L*g).sum().backward(); a seed is accepted exactly when its shape broadcasts INTO L's shape; reduce_broadcast restores exactly the variable's shape "
+             "(so the generic path stores gradients of the tensor's shape, 0-d included). Tie: both shape lattices complete for rank<=3/extents<=3 against the model in Coq (incl. 'no gradient written on rejection'), "
+             "exact-integer programs in four seedings on /repo and against Model/GraphP.v, and the type/shape/dtype invariant of every stored gradient on all programs and on 12 nnet layers/losses in f16/f32/f64.",
+        design_ref="DESIGN.md 5 (C14)",
+        note="dtype and ndarray-ness of gradients are checked on the implementation only (the engine model is dtype-free). Known finding: GRU stores a (T,N,D) gradient on a (T+1,N,D) tensor (pinned by a test). No axioms.",
+        technique="Coq proofs (sweep simulation for the seeding identities, list induction for shape rules) + exhaustive shape-lattice correspondence + differential oracle",
+    ),
     "C15": dict(
         text="Machine-checked proof (Coq) that in the model of ContextTracker and the three manager objects every with-block / decorated call, "
              "for ANY body (arbitrary nesting, re-entrant use, exceptions at any depth, turn_* calls), exits without error and restores the governed "
@@ -130,7 +139,7 @@ def main():
 
 
 # fix: commits in /repo (filled in as they are made)
-SOURCE_COMMITS = ["1caf915", "cac9d7b", "4b729bd"]
+SOURCE_COMMITS = ["1caf915", "cac9d7b", "4b729bd", "9cd2617"]
 
 if __name__ == "__main__":
     main()
